@@ -1,4 +1,5 @@
 from abc import ABC, abstractmethod
+import numpy as np
 
 
 class BaseSolve(ABC):
@@ -74,6 +75,12 @@ class MarginalRayHeightSolve(BaseSolve):
         offset = ((self.height - ya[self.surface_idx])
                   / ua[self.surface_idx - 1])
         offset = float(offset[0])
+
+        # a solve that cannot be evaluated (no finite marginal ray, e.g. while
+        # an optimizer visits a degenerate prescription) leaves the surfaces
+        # where they are: a NaN position could never be solved away again
+        if not np.isfinite(offset):
+            return
 
         # shift current surface and all subsequent surfaces
         for surface in self.optic.surface_group.surfaces[self.surface_idx:]:
